@@ -4,8 +4,11 @@ Fault enumeration: every fault origin x every handler chain up to a length
 bound x every final-handler mode, each executed on the real Connection over
 the virtual network (canonical schedule) and compared with a reference
 interpreter of the documented try/except chain; the same with a write error
-pending when the fault occurs; and a small family of thread schedules in
-which a handler hands the failure over to a user thread and waits for it.
+pending when the fault occurs; with the new connection of a handler started
+through status(); with the final handler and the exit callback configured
+through the public attributes, before the first or before a second use of the
+object; and a small family of thread schedules in which a handler hands the
+failure over to a user thread and waits for it.
 """
 import itertools
 import json
@@ -29,34 +32,69 @@ RULE = ('Fault origins {early listener, ordinary listener, built-in reaction '
         'chains of length 0-2 (quick) / 0-3 (thorough), each handler = (type '
         'filter in {the original type, replacement types only, an unrelated '
         'type, none = catch all}, registered early or not, action in '
-        '{returns, raises a replacement, starts a new connection}) x final '
+        '{starts no connection, starts a new connection} x {returns, raises '
+        'a replacement} - a handler that starts a new connection and then '
+        'raises has caught nothing: the replacement is offered to the later '
+        'handlers, recorded, and re-raised from the dying thread iff nothing '
+        'caught it and there is no final handler, while the new connection '
+        'stays up) x final '
         'handler in {None, False, returning function, raising function}.  '
-        'Complete product.  Second dimension, for every origin except the '
+        'Complete product.  What the dying thread raises is read from the '
+        'thread itself in every case, with or without a new connection.  '
+        'The way a handler starts the new connection is a further dimension '
+        'of every chain that contains such a handler (only the first one '
+        'that runs starts one): connect() (chains as above; afterwards the '
+        'new connection must be a live play connection that answers a '
+        'keep-alive) or status() with both callbacks (chains one shorter; '
+        'the status conversation must complete - one request, one ping at '
+        'the server, each callback called once with what the server sent - '
+        'and afterwards the object must connect again).  Route dimension: '
+        'the final handler is configured by {constructor keyword, '
+        'assignment to the public attribute handle_exception after '
+        'construction (the constructor was given the next mode in the cycle '
+        'None -> returning -> ... so that every mode replaces an observably '
+        'different one), assignment to the attribute after a first '
+        'connection of the same object has ended (second use of the object; '
+        'first connection = a play connection, or a status query for the two '
+        'status-phase origins, ended {by the server in the ordinary way, by '
+        'a failure of its own that the handler of the time dealt with}; '
+        'handlers and listeners are registered after it)}, likewise the exit '
+        'callback handle_exit (same route as the final handler; for the '
+        'origin exit callback the two routes vary independently, 3 x 3): '
+        'every route other than keyword/keyword x every origin x chains one '
+        'shorter (new connection through status(): two shorter) x the four '
+        'final modes, same oracle (the replaced values '
+        'must never be called).  Second dimension, for every origin except the '
         'exit callback: a write error is pending when the fault occurs (the '
         'client has two packets queued; the server answers the first bytes '
         'written with the packet that provokes the fault and closes, so the '
         'rest of the same write pass fails and the provoking packet is '
         'readable in the same lap; environment answer to writes after the '
         'close in {EPIPE at once, one more write accepted then EPIPE}) x '
-        'chains of length 0-1 (quick) / 0-2 (thorough) x the four final '
+        'chains of length 0-1 (quick) / 0-2 (thorough; new connection '
+        'through status(): 0-1) x the four final '
         'handlers: the exception dispatched must still be the one that '
         'escaped the read pass.  Third part, schedules: the networking '
         'thread fails in play (ordinary listener) and the handler {a '
         'registered handler, the final handler} hands the failure over to a '
         'user thread and waits (through the scheduler) until that thread\'s '
         'call {disconnect(), disconnect(immediate=True), '
-        'write_packet(force=True), connect()} has returned: all schedules of '
+        'write_packet(force=True), connect()} has returned, then {returns, '
+        'raises a replacement}: all schedules of '
         'the two threads with <= 1 (quick) / 2 (thorough) preemptions, '
         'scheduling points at every lock, queue, socket and thread '
         'operation and every shared-attribute bytecode of connection.py; '
         'oracle: no deadlock, the handler is called once with the original '
-        'exception, the failed thread ends without re-raising, the '
-        'exception is recorded, and either the connection started by the '
+        'exception, the last exception is recorded, the failed thread ends '
+        'and re-raises exactly when a registered handler raised (no final '
+        'handler is configured then), '
+        'and either the connection started by the '
         'user\'s accepted connect() is a live play connection or the failed '
         'one is closed at the server and the object connects again.  '
         'Non-trivial = at least one handler registered or '
         'a final handler function; distinct = distinct (origin, pending '
-        'write error, chain, final) plus distinct schedule outcomes.')
+        'write error, way of reconnecting, routes, chain, final) plus '
+        'distinct schedule outcomes.')
 ASSUMPTIONS = ['the reference interpreter below encodes the documented '
                'semantics of register_exception_handler / handle_exception',
                'canonical schedule for the fault enumeration (the fault is '
@@ -67,7 +105,17 @@ ASSUMPTIONS = ['the reference interpreter below encodes the documented '
                'when a write error and an exception from the read pass '
                'exist in the same lap, the statement ("any exception '
                'escaping a listener, a built-in reaction or packet decoding '
-               '... is dispatched") makes the latter the one to dispatch']
+               '... is dispatched") makes the latter the one to dispatch',
+               'handle_exception and handle_exit are public attributes: '
+               'assigning one between connections (no networking thread '
+               'running) is equivalent to passing the value to the '
+               'constructor (the pinned test suite assigns handle_exit this '
+               'way)',
+               'a second-use case is judged only when the first connection '
+               'left the object idle; the same conversations are judged as '
+               'first uses by the keyword cases, and an unjudged second-use '
+               'case on a tree that passes all judged cases is a tool '
+               'error']
 
 V = 757
 ORIGINS = ('early_listener', 'listener', 'reaction_login', 'reaction_status',
@@ -80,8 +128,38 @@ PENDING_ORIGINS = tuple(o for o in ORIGINS if o != 'exit_callback')
 EARLY_ORIGINS = ('reaction_login', 'reaction_status', 'reaction_negotiation')
 PENDING_ENVS = ('raise', 'ok_once')
 FILTERS = ('orig', 'repl', 'none', 'all')
-ACTIONS = ('return', 'raise', 'reconnect')
+# what a handler does: {starts no connection, starts a new connection} x
+# {returns, raises a replacement}
+ACTIONS = ('return', 'raise', 'reconnect', 'reconnect_raise')
+RECONNECTING = ('reconnect', 'reconnect_raise')
+RAISING = ('raise', 'reconnect_raise')
+# how a reconnecting handler starts the new connection
+VIAS = ('connect', 'status')
 FINALS = ('None', 'False', 'returns', 'raises')
+# the route by which the final handler / the exit callback is configured:
+# constructor keyword; attribute assignment after construction, before the
+# first connect; attribute assignment after a first connection of the same
+# object has ended (second use)
+ROUTES = ('keyword', 'attr', 'second')
+# how the first connection ended (routes with 'second')
+FIRST_ENDS = ('clean', 'failed')
+# the value the attribute held before the assignment (given to the
+# constructor): the next final mode in cyclic order, so that every mode is
+# replaced once and every replaced value behaves observably differently
+PREV = {'None': 'returns', 'False': 'raises', 'returns': 'None',
+        'raises': 'False'}
+BASE = {'pending': None, 'via': 'connect', 'froute': 'keyword',
+        'eroute': 'keyword', 'first_end': None}
+
+
+def variant(**kw):
+    var = dict(BASE)
+    var.update(kw)
+    return var
+
+
+def has_reconnect(chain):
+    return any(h[2] in RECONNECTING for h in chain)
 
 
 class Orig(Exception):
@@ -144,11 +222,16 @@ def reference(origin, chain, final):
         if not match:
             continue
         calls.append((i, cur.__name__))
-        if action == 'raise':
+        if action in RECONNECTING:
+            # (a new connection exists from here on, whatever the handler
+            # does next: the statement's "unless a handler has already
+            # started a new one")
+            reconnected = True
+        if action in RAISING:
+            # like a raise inside an except clause: the replacement is
+            # offered to the later handlers, this handler caught nothing
             cur = REPLS[i]
             continue
-        if action == 'reconnect':
-            reconnected = True
         caught = True
         break
     if final in ('returns', 'raises'):
@@ -173,17 +256,32 @@ class ClosingServer(RefServer):
         RefServer.on_sends(self, conn, entries)
 
 
-def body(W, origin, chain, final, pending=None):
+def body(W, origin, chain, final, pending=None, via='connect',
+         froute='keyword', eroute='keyword', first_end=None):
     """pending: None, or the environment's answer to writes after the peer
     has closed ('raise' / 'ok_once'): the fault then occurs in a lap whose
     write pass has failed (the write error is waiting to be raised after
-    the read pass)."""
+    the read pass).
+    via: how a reconnecting handler starts the new connection.
+    froute / eroute: the route by which the final handler / the exit
+    callback is configured (ROUTES); first_end: how the first connection
+    ended when one of them is 'second'."""
     S = W.S
     from minecraft.networking.packets import clientbound, serverbound
     ot = orig_type(origin)
     calls = []
     exits = []
     state = {'reconnected': False}
+    second = 'second' in (froute, eroute)
+    if second != (first_end is not None):
+        raise ToolError('first_end %r with routes %r %r'
+                        % (first_end, froute, eroute))
+    # judged: the use of the object whose fault is judged has begun;
+    # nb / na: connections / threads that existed before it
+    phase = {'judged': not second, 'nb': 0, 'na': 1}
+    first_kind = 'status' if origin in ('reaction_status',
+                                        'reaction_negotiation') else 'play'
+    status_seen, pings_seen = [], []
 
     def trigger():
         """What the server sends to provoke the fault (pending variant)."""
@@ -208,6 +306,19 @@ def body(W, origin, chain, final, pending=None):
         return early
 
     def per_conn(i):
+        if not phase['judged']:
+            # the first use of the object: a status query (for the origins
+            # whose judged use needs the full set of allowed versions: a
+            # completed negotiation narrows it for good) or a play
+            # connection, ended by the server in the ordinary way, or by a
+            # failure that the handler configured at the time deals with
+            if first_kind == 'status':
+                return {} if first_end == 'clean' else \
+                    {'status': {'json': 'this is {not json'}}
+            return {'login': [('success',)], 'play_script': [
+                ('disconnect', '{"text":"first use over"}')
+                if first_end == 'clean' else ('raw', 0x21, b'\x01')]}
+        i -= phase['nb']
         if i > 0:
             return {'login': [('success',)], 'play_script': []}
         if pending is not None:
@@ -243,37 +354,86 @@ def body(W, origin, chain, final, pending=None):
     else:
         def endpoint(vconn):
             i = len(W.servers)
-            srv = ClosingServer(vconn, protoids.ids, W.rank, status={
-                'json': status_json(protocol=V, name='1.18.1')},
-                **per_conn(i))
-            if i == 0 and origin in EARLY_ORIGINS:
+            kw = {'status': {'json': status_json(protocol=V, name='1.18.1')}}
+            kw.update(per_conn(i))
+            srv = ClosingServer(vconn, protoids.ids, W.rank, **kw)
+            if phase['judged'] and i == phase['nb'] and \
+                    origin in EARLY_ORIGINS:
                 srv.armed = trigger()
             W.servers.append(srv)
             return srv
         W.net.listen('srv', 25565, endpoint)
 
-    def make_final():
-        if final == 'None':
+    def make_final(mode, current=True):
+        """current=False: the value that is replaced through the attribute
+        before the judged use; a call of it during the judged use is
+        recorded as such."""
+        if mode == 'None':
             return None
-        if final == 'False':
+        if mode == 'False':
             return False
 
         def fn(exc, info):
-            calls.append(('final', type(exc).__name__))
-            S.event('handler', 'final')
+            if not phase['judged']:
+                if mode == 'raises':
+                    raise FinalRepl('from the final handler of the first use')
+                return
+            tag = 'final' if current else 'replaced-final'
+            calls.append((tag, type(exc).__name__))
+            S.event('handler', tag)
             if info[1] is not exc:
                 calls.append(('final-info-mismatch',))
-            if final == 'raises':
+            if mode == 'raises':
                 raise FinalRepl('from final')
         return fn
 
     def on_exit():
+        if not phase['judged']:
+            return
         exits.append(1)
         if origin == 'exit_callback' and len(exits) == 1:
             raise Orig('from exit callback')
+
+    def replaced_exit():
+        if phase['judged']:
+            # (not an exception handler: noted, and judged only through its
+            # consequence - the exit callback that should have raised did
+            # not run)
+            S.event('replaced-exit-callback')
+            state['replaced_exit_called'] = True
     allowed = {V, 340} if origin == 'reaction_negotiation' else {V}
-    conn = W.connection(allowed_versions=allowed,
-                        handle_exception=make_final(), handle_exit=on_exit)
+    conn = W.connection(
+        allowed_versions=allowed,
+        handle_exception=make_final(final) if froute == 'keyword'
+        else make_final(PREV[final], current=False),
+        handle_exit=on_exit if eroute == 'keyword' else replaced_exit)
+    if froute == 'attr':
+        conn.handle_exception = make_final(final)
+    if eroute == 'attr':
+        conn.handle_exit = on_exit
+
+    if second:
+        # first use: runs to its end, then the attributes are assigned
+        if first_kind == 'status':
+            conn.status(handle_status=lambda s: None, handle_ping=False)
+        else:
+            conn.connect()
+        W.settle()
+        if S.live() or conn.networking_thread is not None or \
+                not W.servers or not W.servers[-1].client_gone:
+            # the object is not idle again: there is no "second use" to
+            # judge on this tree (the same conversation is judged as a first
+            # use by the keyword variants); see the vacuity guard in _run()
+            return {'first_use_incomplete': '%d threads alive, thread slot '
+                    '%r, %d connections' % (len(S.live()),
+                                            conn.networking_thread,
+                                            len(W.servers))}
+        if froute == 'second':
+            conn.handle_exception = make_final(final)
+        if eroute == 'second':
+            conn.handle_exit = on_exit
+        phase.update(judged=True, nb=len(W.servers), na=len(S.agents))
+    nb, na = phase['nb'], phase['na']
 
     def make_handler(i, action):
         def fn(exc, info):
@@ -281,11 +441,18 @@ def body(W, origin, chain, final, pending=None):
             S.event('handler', i)
             if info[1] is not exc:
                 calls.append(('info-mismatch', i))
-            if action == 'raise':
-                raise REPLS[i]('from handler %d' % i)
-            if action == 'reconnect' and not state['reconnected']:
+            if action in RECONNECTING and not state['reconnected']:
                 state['reconnected'] = True
-                conn.connect()
+                if via == 'status':
+                    conn.status(
+                        handle_status=lambda s: status_seen.append(
+                            s.get('version', {}).get('protocol')
+                            if isinstance(s, dict) else repr(s)),
+                        handle_ping=pings_seen.append)
+                else:
+                    conn.connect()
+            if action in RAISING:
+                raise REPLS[i]('from handler %d' % i)
         return fn
     for i, (filt, early, action) in enumerate(chain):
         types = {'orig': (ot,), 'repl': (Repl,), 'none': (Unrelated,),
@@ -323,16 +490,16 @@ def body(W, origin, chain, final, pending=None):
         # (a tree on which this plain login fails provokes no fault here:
         # the case is then not judged, see one(); the variants without a
         # pending write error report such a tree)
-        if W.servers[0].state == 'play' and not calls:
-            W.servers[0].armed = trigger()
+        if W.servers[nb].state == 'play' and not calls:
+            W.servers[nb].armed = trigger()
             for text in ('queued 1', 'queued 2'):
                 conn.write_packet(serverbound.play.ChatPacket(message=text))
             W.settle()
-    first = S.agents[1] if len(S.agents) > 1 else None
-    srv0 = W.servers[0]
+    first = S.agents[na] if len(S.agents) > na else None
+    srv0 = W.servers[nb]
+    c0 = W.net.conns[nb]
     fails = [i for i, ev in enumerate(S.log) if ev[0] == 'send-fail'
-             and ev[1] == 0 and first is not None and ev[2] == first.id]
-    c0 = W.net.conns[0]
+             and ev[1] == c0.id and first is not None and ev[2] == first.id]
     out = {
         # (pending variant) the first thread's write met EPIPE on the first
         # connection before any handler ran
@@ -348,19 +515,39 @@ def body(W, origin, chain, final, pending=None):
         'exc_info_ok': conn.exc_info is not None
         and conn.exc_info[1] is conn.exception,
         'first_thread_done': first is not None and first.state == 'done',
+        # what the dying thread raised (the re-raise), also when a handler
+        # has started a new connection
         'reraised': type(first.exc).__name__
         if first is not None and first.exc is not None else None,
-        'other_thread_exc': [type(a.exc).__name__ for a in S.agents[2:]
+        'other_thread_exc': [type(a.exc).__name__ for a in S.agents[na + 1:]
                              if a.exc is not None],
         'closed_at_server': srv0.client_gone,
-        'conns': len(W.net.conns),
+        'conns': len(W.net.conns) - nb,
         'live': len(S.live()),
         'reconnected': state['reconnected'],
         'exits': len(exits),
+        'replaced_exit_called': bool(state.get('replaced_exit_called')),
         'slot': conn.networking_thread is not None,
     }
     # the new connection (if a handler started one) is live and undisturbed
-    if state['reconnected'] and len(W.servers) > 1:
+    started = state['reconnected'] and len(W.servers) > nb + 1
+    if started and via == 'status':
+        # a status conversation with latency measurement: both callbacks
+        # have been called, with what the server sent, and the server saw
+        # one well-formed request and one ping; then it is over
+        srv1 = W.servers[-1]
+        out['new_conn_alive'] = (
+            status_seen == [V] and len(pings_seen) == 1
+            and srv1.status_requests == 1 and len(srv1.pings) == 1
+            and not srv1.errors and len(W.servers) == nb + 2)
+        if not out['new_conn_alive']:
+            out['new_conn_state'] = (
+                'status callback calls %r (expected [%d]), ping callback '
+                'calls %d (expected 1); server: state %s, %d requests, %d '
+                'pings, errors %r' % (
+                    status_seen, V, len(pings_seen), srv1.state,
+                    srv1.status_requests, len(srv1.pings), srv1.errors[:2]))
+    elif started:
         srv1 = W.servers[-1]    # (after a negotiated reconnect: the 3rd)
         if srv1.state != 'play':
             # the new connection never got through its login
@@ -374,8 +561,11 @@ def body(W, origin, chain, final, pending=None):
             out['new_conn_alive'] = ('keepalive', 777) in srv1.play_rx and \
                 not srv1.client_gone and type(conn.reactor).__name__ == \
                 'PlayingReactor'
-    elif not state['reconnected']:
-        # afterwards the same object can connect again
+    if not state['reconnected'] or (started and via == 'status'
+                                    and out['new_conn_alive']):
+        # afterwards (also: after the status conversation that a handler
+        # started has ended) the same object can connect again
+        out['live_before_reuse'] = len(S.live())
         try:
             conn.connect()
             W.settle()
@@ -395,17 +585,22 @@ def body(W, origin, chain, final, pending=None):
     return out
 
 
-def judge(origin, chain, final, x):
+def judge(origin, chain, final, x, via='connect'):
     viol = []
     if x.failure is not None:
         return [(x.failure[0], '%s: %s' % x.failure)]
     r = x.result
+    if 'first_use_incomplete' in r:
+        return []
     calls, recorded, reraised, reconnected = reference(origin, chain, final)
     got_calls = [tuple(c) for c in r['calls']]
     if got_calls != calls:
         viol.append(('handler-calls', 'handlers were called as %r, the '
-                     'try/except reading of the chain gives %r'
-                     % (got_calls, calls)))
+                     'try/except reading of the chain gives %r%s'
+                     % (got_calls, calls,
+                        ' (the exit callback that was replaced through the '
+                        'attribute was called)'
+                        if r['replaced_exit_called'] else '')))
         return viol
     if r['recorded'] != recorded:
         viol.append(('recorded-exception', 'connection.exception is %r, '
@@ -417,7 +612,11 @@ def judge(origin, chain, final, x):
     if bool(r['reraised']) != reraised or (
             reraised and r['reraised'] != recorded):
         viol.append(('reraise', 're-raised from the thread: %r, expected %s'
-                     % (r['reraised'], recorded if reraised else 'nothing')))
+                     '%s' % (r['reraised'],
+                             recorded if reraised else 'nothing',
+                             ' (a handler had started a new connection '
+                             'before the chain ended)' if reconnected
+                             else '')))
     if r['other_thread_exc']:
         viol.append(('second-thread-raised', 'a later networking thread '
                      'raised %r' % (r['other_thread_exc'],)))
@@ -435,12 +634,26 @@ def judge(origin, chain, final, x):
     if reconnected:
         if r.get('new_conn_alive') is not True:
             viol.append(('new-connection-disturbed', 'a handler started a '
-                         'new connection, but afterwards it is not a live '
-                         'play connection (conns=%d live threads=%d%s)'
-                         % (r['conns'], r['live'],
+                         'new connection (%s), but afterwards it is not %s '
+                         '(conns=%d live threads=%d%s)'
+                         % ('connect()' if via == 'connect' else
+                            'status() with both callbacks',
+                            'a live play connection' if via == 'connect'
+                            else 'a completed status conversation',
+                            r['conns'], r['live'],
                             '; server side of the new connection: '
                             + r['new_conn_state']
                             if 'new_conn_state' in r else '')))
+        elif via == 'status':
+            if r['live_before_reuse'] != 0:
+                viol.append(('thread-survives', '%d threads alive after the '
+                             'status conversation started by a handler has '
+                             'ended' % r['live_before_reuse']))
+            if r.get('reusable') is not True:
+                viol.append(('not-reusable', 'after the failure and the '
+                             'status conversation started by a handler, '
+                             'connect() on the same object: %r'
+                             % (r.get('reusable'),)))
     else:
         if r['live'] != 0 and 'reusable' not in r:
             viol.append(('thread-survives', '%d threads alive' % r['live']))
@@ -454,9 +667,9 @@ def judge(origin, chain, final, x):
     return viol
 
 
-def chains(maxlen):
+def chains(maxlen, minlen=0):
     opts = list(itertools.product(FILTERS, (False, True), ACTIONS))
-    for n in range(maxlen + 1):
+    for n in range(minlen, maxlen + 1):
         for c in itertools.product(opts, repeat=n):
             yield c
 
@@ -469,12 +682,19 @@ def netkw(origin, pending=None):
     return {}
 
 
-def one(origin, chain, final, pending):
-    x = harness.run(lambda W: body(W, origin, chain, final, pending),
+ROUTE_TEXT = {'keyword': 'the constructor keyword',
+              'attr': 'assignment to the attribute after construction',
+              'second': 'assignment to the attribute after a first '
+              'connection of the object had ended'}
+
+
+def one(origin, chain, final, var):
+    pending, via = var['pending'], var['via']
+    x = harness.run(lambda W: body(W, origin, chain, final, **var),
                     horizon=50000, **netkw(origin, pending))
-    viol = judge(origin, chain, final, x)
+    viol = judge(origin, chain, final, x, via)
     if pending is not None and x.failure is None and not (
-            x.result['write_failed'] and x.result['fault_reached']):
+            x.result.get('write_failed') and x.result.get('fault_reached')):
         # the tree under test never got to the fault (e.g. it gives up at
         # the failed write): no exception escaped a listener, reaction or
         # the decoder, the statement says nothing; counted, see the
@@ -486,36 +706,97 @@ def one(origin, chain, final, pending):
                  'writing, environment answer to further writes: %s.  The '
                  'exception that escaped the read pass is the one to be '
                  'dispatched.)' % pending) for k, w in viol]
+    if (var['froute'], var['eroute']) != ('keyword', 'keyword'):
+        note = '  (The final handler was configured through %s%s, the exit ' \
+            'callback through %s%s: the routing must be the same as with ' \
+            'the constructor keywords.)' % (
+                ROUTE_TEXT[var['froute']],
+                '' if var['froute'] == 'keyword' else
+                ', replacing the mode %s given to the constructor'
+                % PREV[final],
+                ROUTE_TEXT[var['eroute']],
+                '' if var['first_end'] is None else
+                '; the first connection had ended %s' % (
+                    'with the server\'s disconnect / the end of a status '
+                    'query' if var['first_end'] == 'clean' else
+                    'with a failure of its own'))
+        viol = [(k, w + note) for k, w in viol]
     return x, viol
 
 
-def label(origin, pending):
-    return origin if pending is None else \
-        '%s+write-error-pending(%s)' % (origin, pending)
+def label(origin, var):
+    if not isinstance(var, dict):       # (older callers: pending or None)
+        var = variant(pending=var)
+    s = origin
+    if var['pending'] is not None:
+        s += '+write-error-pending(%s)' % var['pending']
+    if var['via'] != 'connect':
+        s += '+new-connection-via-%s' % var['via']
+    if (var['froute'], var['eroute']) != ('keyword', 'keyword'):
+        s += '+final-by-%s,exit-by-%s' % (var['froute'], var['eroute'])
+        if var['first_end'] is not None:
+            s += '(first use %s)' % var['first_end']
+    return s
+
+
+def case_of(origin, final, chain, var):
+    case = {'origin': origin, 'final': final,
+            'chain': [list(h) for h in chain]}
+    case.update(var)
+    return case
 
 
 def w_batch(ctx, task):
-    origin, final, batch, pending = task
+    origin, final, batch, var = task
+    lab = label(origin, var)
+    pending = var['pending']
     for chain in batch:
-        x, viol = one(origin, chain, final, pending)
+        x, viol = one(origin, chain, final, var)
         ctx.count()
         if chain or final in ('returns', 'raises'):
             ctx.note_distinct(1)
         exp = reference(origin, chain, final)
         ctx.outcome('recorded=%s reraised=%s reconnected=%s ncalls=%d'
-                    % (exp[1], exp[2], exp[3], len(exp[0])))
-        ctx.cls('origin %s' % label(origin, pending))
+                    % (exp[1], exp[2],
+                       exp[3] and 'via ' + var['via'], len(exp[0])))
+        ctx.cls('origin %s' % label(origin, variant(pending=pending)))
         if pending is not None and x.failure is None and \
-                x.result['write_failed'] and x.result['fault_reached']:
-            ctx.cls('write pass failed before the fault: %s'
-                    % label(origin, pending))
+                x.result.get('write_failed') and \
+                x.result.get('fault_reached'):
+            ctx.cls('write pass failed before the fault: %s' % lab)
+        if exp[3] and exp[2]:
+            ctx.cls('re-raise due after a handler has started a new '
+                    'connection (via %s)' % var['via'])
+        if (var['froute'], var['eroute']) != ('keyword', 'keyword'):
+            rl = 'final by %s, exit callback by %s%s' % (
+                var['froute'], var['eroute'],
+                '' if var['first_end'] is None
+                else ', first use ended: ' + var['first_end'])
+            if x.failure is None and 'first_use_incomplete' in x.result:
+                ctx.cls('route not judged (first use did not end): ' + rl)
+            else:
+                ctx.cls('route judged: ' + rl)
         for key, what in viol:
             ctx.violation(
-                '%s final=%s %s' % (label(origin, pending), final, key),
+                '%s final=%s %s' % (lab, final, key),
                 'origin %s, handler chain (filter, early, action) %r, final '
                 'handler %s: %s' % (origin, list(chain), final, what),
-                {'origin': origin, 'final': final, 'pending': pending,
-                 'chain': [list(h) for h in chain]})
+                case_of(origin, final, chain, var))
+
+
+def route_variants(origin):
+    """All (froute, eroute, first_end) except the plain one.  The route of
+    the exit callback is varied independently only where the exit callback
+    can raise (origin exit_callback); elsewhere it follows the route of the
+    final handler."""
+    out = []
+    for fr in ROUTES:
+        for er in (ROUTES if origin == 'exit_callback' else (fr,)):
+            if (fr, er) == ('keyword', 'keyword'):
+                continue
+            for fe in (FIRST_ENDS if 'second' in (fr, er) else (None,)):
+                out.append(variant(froute=fr, eroute=er, first_end=fe))
+    return out
 
 
 # ---------------------------------------------------------------------------
@@ -524,12 +805,16 @@ def w_batch(ctx, task):
 HANDOFF_POS = ('handler', 'final')
 HANDOFF_OPS = ('disconnect', 'disconnect_immediate', 'write_forced',
                'connect')
+HANDOFF_THEN = ('return', 'raise')
 
 
-def handoff_body(W, pos, op):
+def handoff_body(W, pos, op, then='return'):
     """The networking thread fails (an ordinary listener raises); the
     exception handler at position pos signals a user thread and waits until
-    that thread's call on the connection has returned."""
+    that thread's call on the connection has returned; then it returns or
+    raises a replacement (a registered handler that raises has caught
+    nothing: with no final handler the replacement is re-raised from the
+    thread - also when the user thread has started a new connection)."""
     S = W.S
     from minecraft.networking.packets import clientbound, serverbound
     W.serve(login=[('success',)], play_script=[])
@@ -542,6 +827,9 @@ def handoff_body(W, pos, op):
             S.event('handler', tag)
             flags['failed'] = True
             S.block_until(lambda: flags['done'], 'handoff')
+            if then == 'raise':
+                raise (REPLS[0] if tag == 'handler' else FinalRepl)(
+                    'from the %s, after the hand-over' % tag)
         return fn
     conn = W.connection(allowed_versions={V},
                         handle_exception=blocking('final')
@@ -589,8 +877,15 @@ def handoff_body(W, pos, op):
         flags['done'] = True
 
     what = 'the %s hands the failure to a user thread and waits for its ' \
-        '%s() to return' % ('registered exception handler' if pos == 'handler'
-                            else 'final handler', op)
+        '%s() to return%s' % (
+            'registered exception handler' if pos == 'handler'
+            else 'final handler', op,
+            '' if then == 'return' else ', then raises a replacement')
+    # reference: like try/except
+    exp_recorded = 'Orig' if then == 'return' else \
+        REPLS[0].__name__ if pos == 'handler' else 'FinalRepl'
+    exp_reraised = exp_recorded if then == 'raise' and pos == 'handler' \
+        else None
     S.window = True
     try:
         a = S.spawn(user, name='user')
@@ -619,13 +914,20 @@ def handoff_body(W, pos, op):
         viol.append(('thread-survives', '%s: the networking thread in which '
                      'the exception occurred is still alive (%r; stuck: %r)'
                      % (what, first, S.stuck())))
-    if first.exc is not None:
-        viol.append(('reraise', '%s: %s was re-raised from the thread '
-                     'although a handler caught it / a final handler is '
-                     'configured' % (what, type(first.exc).__name__)))
-    if type(conn.exception).__name__ != 'Orig':
-        viol.append(('recorded-exception', '%s: connection.exception is %r'
-                     % (what, conn.exception)))
+    got_reraised = type(first.exc).__name__ if first.exc is not None \
+        else None
+    if got_reraised != exp_reraised:
+        viol.append(('reraise', '%s: re-raised from the thread: %r, '
+                     'expected %r (%s)' % (
+                         what, got_reraised, exp_reraised,
+                         'a handler caught it / a final handler is '
+                         'configured' if exp_reraised is None else
+                         'the handler that raised has caught nothing and no '
+                         'final handler is configured')))
+    if type(conn.exception).__name__ != exp_recorded:
+        viol.append(('recorded-exception', '%s: connection.exception is %r, '
+                     'expected the last exception, a %s'
+                     % (what, conn.exception, exp_recorded)))
     started_new = op == 'connect' and results.get('op') == 'ok'
     if not viol and started_new:
         # the user thread has started a new connection on the handler's
@@ -667,15 +969,16 @@ def handoff_body(W, pos, op):
                              'the same object raised %s: %s'
                              % (what, type(e).__name__, e)))
     outcome = (results.get('op'), tuple(calls), len(W.net.conns),
-               srv0.client_gone)
+               srv0.client_gone, got_reraised)
     return {'outcome': outcome, 'violations': viol}
 
 
 def handoff_factory(params):
     pos, op = params['pos'], params['op']
+    then = params.get('then', 'return')
 
     def scenario(prefix, expect, visited=None, budget=0):
-        return harness.run(lambda W: handoff_body(W, pos, op), prefix,
+        return harness.run(lambda W: handoff_body(W, pos, op, then), prefix,
                            tracing=True, expect=expect, horizon=60000,
                            visited=visited,
                            budget=budget if budget != 'replay' else 0,
@@ -695,29 +998,49 @@ def run(ctx):
 def _run(ctx, ex):
     maxlen = 3 if ctx.thorough else 2
     allc = list(chains(maxlen))
-    # with a write error pending: one handler less
+    # new connection started through status(): one handler less
+    stac = [c for c in chains(maxlen - 1) if has_reconnect(c)]
+    # with a write error pending: one handler less (through status(): two)
     penc = list(chains(maxlen - 1))
+    pens = [c for c in chains(maxlen - 2) if has_reconnect(c)]
+    # the other routes of configuration: one handler less
+    rouc = list(chains(maxlen - 1))
+    rous = [c for c in chains(maxlen - 2) if has_reconnect(c)]
     tasks = []
+
+    def add(origin, final, cs, var):
+        for i in range(0, len(cs), 40):
+            tasks.append((origin, final, cs[i:i + 40], var))
     for origin in ORIGINS:
         for final in FINALS:
-            for i in range(0, len(allc), 40):
-                tasks.append((origin, final, allc[i:i + 40], None))
+            add(origin, final, allc, variant())
+            add(origin, final, stac, variant(via='status'))
+            for var in route_variants(origin):
+                add(origin, final, rouc, var)
+                add(origin, final, rous, dict(var, via='status'))
     for origin in PENDING_ORIGINS:
         for final in FINALS:
             for env in PENDING_ENVS:
-                for i in range(0, len(penc), 40):
-                    tasks.append((origin, final, penc[i:i + 40], env))
+                add(origin, final, penc, variant(pending=env))
+                add(origin, final, pens, variant(pending=env, via='status'))
     if ctx.seed:
         import random
         random.Random(ctx.seed).shuffle(tasks)
     ctx.pmap(w_batch, tasks)
     ctx.extra['chains'] = len(allc)
-    ctx.extra['chains_with_write_error_pending'] = len(penc)
+    ctx.extra['chains_new_connection_via_status'] = len(stac)
+    ctx.extra['chains_with_write_error_pending'] = len(penc) + len(pens)
+    ctx.extra['chains_per_other_route'] = len(rouc) + len(rous)
+    ctx.extra['other_routes'] = {o: len(route_variants(o)) for o in ORIGINS}
     ctx.sample({'origin': 'listener', 'final': 'None',
                 'chain': [['repl', False, 'return'], ['orig', True, 'raise']],
                 'expected': reference('listener', (('repl', False, 'return'),
                                                    ('orig', True, 'raise')),
                                       'None')})
+    ctx.sample({'origin': 'decoder', 'final': 'None', 'via': 'status',
+                'chain': [['all', False, 'reconnect_raise']],
+                'expected': reference(
+                    'decoder', (('all', False, 'reconnect_raise'),), 'None')})
     if ctx.violations:
         return
     # vacuity: on a tree that defers a write error (as pyCraft does) every
@@ -731,15 +1054,35 @@ def _run(ctx, ex):
                    'write pass failed before the fault: %s'
                    % label(origin, env))]
     ctx.extra['pending_write_error_cases_never_reached'] = missing
+    # vacuity: a route with a first use is judged only when the first use
+    # left the object idle; the plain cases are silent here, so it must have
+    not_judged = sorted(k for k in ctx.classes
+                        if k.startswith('route not judged'))
+    if not_judged:
+        raise ToolError('second-use cases whose first use never ended '
+                        'although the same conversations pass as first '
+                        'uses: %r' % (not_judged,))
+    for via in VIAS:
+        if not ctx.classes.get('re-raise due after a handler has started a '
+                               'new connection (via %s)' % via):
+            raise ToolError('no case with a re-raise after a reconnect via '
+                            + via)
     bound = 2 if ctx.thorough else 1
     for pos in HANDOFF_POS:
         for op in HANDOFF_OPS:
-            res = ex.explore(ctx, handoff_factory, {'pos': pos, 'op': op},
-                             bound, label='handoff %s %s ' % (pos, op))
-            ctx.cls('handoff %s %s bound=%d' % (pos, op, bound))
-            ctx.extra['handoff %s %s' % (pos, op)] = {
-                'preemption_bound': bound, 'complete_executions': res.execs,
-                'distinct_outcomes': len(res.outcomes)}
+            for then in HANDOFF_THEN:
+                params = {'pos': pos, 'op': op}
+                name = 'handoff %s %s' % (pos, op)
+                if then != 'return':
+                    params['then'] = then
+                    name += ' then-' + then
+                res = ex.explore(ctx, handoff_factory, params, bound,
+                                 label=name + ' ')
+                ctx.cls('%s bound=%d' % (name, bound))
+                ctx.extra[name] = {
+                    'preemption_bound': bound,
+                    'complete_executions': res.execs,
+                    'distinct_outcomes': len(res.outcomes)}
     ctx.sample({'schedule of': 'handoff', 'pos': 'final', 'op': 'disconnect',
                 'choices': 'index into the enabled agents at each choice '
                 'point'})
@@ -748,7 +1091,8 @@ def _run(ctx, ex):
 def replay(ctx, case):
     if 'choices' in case:
         harness.setup()
-        scenario = handoff_factory(case['params'])
+        params = case['params']
+        scenario = handoff_factory(params)
         x = scenario(list(case['choices']), None, None, 'replay')
         if getattr(x, 'diverged', False):
             print('  note: the recorded schedule cannot be followed on this '
@@ -759,14 +1103,16 @@ def replay(ctx, case):
         viol = list(res.get('violations', ()))
         if x.failure is not None:
             viol.append((x.failure[0], '%s: %s' % x.failure))
+        name = 'handoff %s %s' % (params['pos'], params['op'])
+        if params.get('then', 'return') != 'return':
+            name += ' then-' + params['then']
         for key, what in viol:
-            ctx.violation('handoff %s %s %s' % (
-                case['params']['pos'], case['params']['op'], key), what, case)
+            ctx.violation('%s %s' % (name, key), what, case)
         return
     chain = tuple(tuple(h) for h in case['chain'])
-    pending = case.get('pending')
-    x, viol = one(case['origin'], chain, case['final'], pending)
+    var = variant(**{k: case[k] for k in BASE if k in case})
+    x, viol = one(case['origin'], chain, case['final'], var)
     ctx.count()
     for key, what in viol:
-        ctx.violation('%s final=%s %s' % (label(case['origin'], pending),
+        ctx.violation('%s final=%s %s' % (label(case['origin'], var),
                                           case['final'], key), what, case)
